@@ -25,7 +25,10 @@ RULE = (
     "ego pose (yaw from a rational point on the circle, dyadic translation up to 4096 m); tracking: 2..5 frame sequences with "
     "persistent uuids and moving ego. non-trivial = at least one estimate-GT pair survives the filters; distinct = distinct JSON"
 )
-THEOREMS = []  # filled below when the Lean module exists (see bottom)
+THEOREMS = ["PEval.C07." + t for t in [
+    "egoPos_toMap", "position_decision_frame_free", "filter_toMap", "centerDist2_toMap", "planeDist2_toMap", "iou_toMap",
+    "aphWeight_toMap", "headingError_toMap", "scoreRow_toMap", "scoreRow_toMap_decisions", "scoreTable_toMap",
+    "downstream_frame_free"]]
 TRUSTED = [
     "pyquaternion yaw_pitch_roll / rotation composition and numpy matrix products (external contracts, exercised by every case)",
     "shapely polygon intersection (IoU scores are compared between the two renderings within 1e-6)",
@@ -265,10 +268,52 @@ def _margins_ok(case):
     return True
 
 
+MAX_PAIRS = 12
+
+
+def _pair_obs(case):
+    """first frame, outside the manager: both renderings of every object and of up to MAX_PAIRS pairs"""
+    import numpy as np
+    from perception_eval.common.schema import FrameID
+    from perception_eval.common.transform import TransformDict
+    from perception_eval.evaluation.result.object_result import DynamicObjectWithPerceptionResult as R
+
+    fr = case["frames"][0]
+    cc, ss = B.rat_rot(Fraction(fr["pose"]["t"]))
+    e2m = B.ego2map(fr["pose"]["tx"], fr["pose"]["ty"], B.yaw_of(cc, ss))
+    td = TransformDict([e2m])
+
+    def both(o):
+        a = B.mk_obj(o["x"], o["y"], o["yaw"], MEMBER[o["label"]], o.get("score", 1.0), "base_link", o["uuid"], fr["t"],
+                     (o["w"], o["l"], o["h"]))
+        m = B.to_map(a, e2m)
+        back = td.transform((FrameID.MAP, FrameID.BASE_LINK), m.state.position)
+        return a, m, [float(v) for v in m.state.position], [float(back[0]), float(back[1])], float(m.state.orientation.yaw_pitch_roll[0])
+
+    ests = [both(o) for o in fr["ests"]]
+    gts = [both(o) for o in fr["gts"]]
+    pairs = []
+    for i, (ea, em, *_r) in enumerate(ests):
+        for j, (ga, gm, *_r2) in enumerate(gts):
+            if len(pairs) >= MAX_PAIRS:
+                break
+            re_, rm = R(ea, ga), R(em, gm, transforms=td)
+            corners = np.array(ga.get_footprint().exterior.coords)[:4, :2]
+            d = sorted(float(np.hypot(*c)) for c in corners)
+
+            def row(r):
+                return [r.center_distance.value, r.plane_distance.value, r.iou_2d.value, r.iou_3d.value, _aph(r),
+                        r.heading_error[2]]
+
+            pairs.append({"i": i, "j": j, "ego": row(re_), "map": row(rm), "rank_margin": d[2] - d[1]})
+    return {"ests": [e[2:] for e in ests], "gts": [g[2:] for g in gts], "pairs": pairs}
+
+
 def run_impl(case):
     try:
         ego = _render(case, "base_link")
         mp = _render(case, "map")
+        obs = _pair_obs(case)
     except Exception as e:
         B.cleanup()
         import traceback
@@ -288,7 +333,61 @@ def run_impl(case):
                 thr += [(v[0], t) for t in c["radii"]]
             if any(abs(a - b) < MARGIN for a, b in thr):
                 near = True
-    return {"ego": ego, "map": mp, "near": near}
+    return {"ego": ego, "map": mp, "near": near, "obs": obs}
+
+
+# ----------------------------------------------------------------------------- correspondence with the Lean model
+
+def _mobj(o):
+    return {"x": core.q(o["x"]), "y": core.q(o["y"]), "z": "0", "c": core.q(math.cos(o["yaw"])), "s": core.q(math.sin(o["yaw"])),
+            "tau": core.q(o["yaw"] / math.pi), "w": core.q(o["w"]), "l": core.q(o["l"]), "h": core.q(o["h"])}
+
+
+def model_requests(case, out):
+    if "err" in out:
+        return []
+    fr = case["frames"][0]
+    cc, ss = B.rat_rot(Fraction(fr["pose"]["t"]))
+    pose = {"c": core.q(cc), "s": core.q(ss), "tau": core.q(B.yaw_of(cc, ss) / math.pi), "tx": core.q(fr["pose"]["tx"]),
+            "ty": core.q(fr["pose"]["ty"]), "tz": "0"}
+    return [{"pose": pose, "ests": [_mobj(o) for o in fr["ests"]], "gts": [_mobj(o) for o in fr["gts"]]}]
+
+
+def _near(a, b, rel, ab):
+    return abs(float(a) - float(b)) <= ab + rel * max(abs(float(a)), abs(float(b)))
+
+
+def compare(case, out, resps):
+    if "err" in out:
+        return None
+    r = resps[0]
+    obs = out["obs"]
+    for side in ("ests", "gts"):
+        for k, (real, mod) in enumerate(zip(obs[side], r[side])):
+            pos, back, yaw = real
+            if not (_near(pos[0], Fraction(mod["x"]), 1e-12, 1e-7) and _near(pos[1], Fraction(mod["y"]), 1e-12, 1e-7)):
+                return f"{side}[{k}] map position {pos} != model ({float(Fraction(mod['x']))}, {float(Fraction(mod['y']))})"
+            if not (_near(back[0], Fraction(mod["ego_x"]), 0, 1e-6) and _near(back[1], Fraction(mod["ego_y"]), 0, 1e-6)):
+                return f"{side}[{k}] ego-relative position from the real transform {back} != model"
+            dy = (yaw / math.pi - float(Fraction(mod["tau"]))) % 2.0
+            if min(dy, 2.0 - dy) > 1e-9:
+                return f"{side}[{k}] map yaw {yaw} != model tau {float(Fraction(mod['tau']))}"
+    for p in obs["pairs"]:
+        for rendering, tol in (("ego", 1e-9), ("map", 1e-6)):
+            m = r[rendering][p["i"]][p["j"]]
+            real = p[rendering]
+            checks = [("center", real[0] ** 2, m["center2"]), ("iou2d", real[2], m["iou2d"]), ("iou3d", real[3], m["iou3d"]),
+                      ("aph", real[4], m["aph"])]
+            if p["rank_margin"] > 1e-6:
+                checks.append(("plane", real[1] ** 2, m["plane2"]))
+            for name, a, b in checks:
+                if not _near(a, Fraction(b), tol, tol):
+                    return f"pair {p['i']},{p['j']} [{rendering}] {name}: real {a} != model {float(Fraction(b))}"
+            ye = real[5] / math.pi
+            my = float(Fraction(m["yaw_err"]))
+            if not (abs(ye - my) <= 1e-9 or (abs(abs(ye) - 1) < 1e-9 and abs(abs(my) - 1) < 1e-9)):
+                return f"pair {p['i']},{p['j']} [{rendering}] yaw error: real {ye} != model {my}"
+    return None
 
 
 # ----------------------------------------------------------------------------- oracle: the two executions agree
@@ -327,6 +426,11 @@ def oracle(case, out):
     if out["near"]:
         return None
     d = _cmp(out["ego"], out["map"], 1e-6)
+    if d is None:
+        for p in out["obs"]["pairs"]:  # per-object scores of every pair, also the unmatched ones
+            d = _cmp(p["ego"][:5], p["map"][:5], 1e-6, f"pair {p['i']},{p['j']}") if p["rank_margin"] > 1e-6 else None
+            if d:
+                break
     return None if d is None else "ego-frame and map-frame executions differ at " + d
 
 
